@@ -62,6 +62,10 @@ type cobs struct {
 	hadSession bool
 }
 
+type mikeyEntry struct {
+	ssrc, roc uint32
+}
+
 type aobs struct {
 	wid   int
 	stamp int64
@@ -99,7 +103,9 @@ type reader struct {
 	closedCh   chan struct{}
 	ctl        []cobs
 	closeErr   string
-	pauseSeen  []int64 // stamps of the server's OnPause handler, one per PAUSE
+	pauseSeen  []int64        // stamps of the server's OnPause handler, one per PAUSE
+	sessionID  string         // from the Session header of the responses (library client)
+	keyMgmt    [][]mikeyEntry // SETUP responses, in order: the (SSRC, ROC) pairs of the MIKEY CS-ID map
 
 	prevSent [][]uint64 // writer goroutine only
 
@@ -617,7 +623,25 @@ func (rd *reader) connect1() error {
 			rd.mu.Unlock()
 		},
 		OnResponse: func(res *base.Response) {
+			if v, ok := res.Header["Session"]; ok {
+				var sh headers.Session
+				if sh.Unmarshal(v) == nil {
+					rd.mu.Lock()
+					rd.sessionID = sh.Session
+					rd.mu.Unlock()
+				}
+			}
 			if v, ok := res.Header["Transport"]; ok {
+				var km headers.KeyMgmt
+				var entries []mikeyEntry
+				if kv, has := res.Header["KeyMgmt"]; has && km.Unmarshal(kv) == nil && km.MikeyMessage != nil {
+					for _, e := range km.MikeyMessage.Header.CSIDMapInfo {
+						entries = append(entries, mikeyEntry{e.SSRC, e.ROC})
+					}
+				}
+				rd.mu.Lock()
+				rd.keyMgmt = append(rd.keyMgmt, entries)
+				rd.mu.Unlock()
 				var th headers.Transport
 				if th.Unmarshal(v) == nil {
 					ch := -1
@@ -696,14 +720,34 @@ func (rd *reader) doPause() {
 	h := rd.h
 	ob := cobs{op: "pause", cs: h.clock.Add(1)}
 	if rd.raw != nil {
-		return // (raw readers do not pause)
+		ob.err = rd.raw.pause()
+	} else {
+		_, ob.err = rd.c.Pause()
 	}
-	_, ob.err = rd.c.Pause()
 	ob.k = rd.count()
 	ob.cd = h.clock.Add(1)
 	if ob.err == nil {
 		rd.state = "paused"
 	}
+	rd.mu.Lock()
+	rd.ctl = append(rd.ctl, ob)
+	rd.mu.Unlock()
+}
+
+// doReplay: a PLAY while the reader is already playing (the server allows it: it must change nothing).
+func (rd *reader) doReplay() {
+	h := rd.h
+	if rd.raw == nil && !rd.udp {
+		return // a library client on a TCP-based transport owns its connection: no second PLAY possible
+	}
+	ob := cobs{op: "replay", cs: h.clock.Add(1)}
+	if rd.raw != nil {
+		ob.err = rd.raw.play()
+	} else {
+		ob.err = rd.sidePlay()
+	}
+	ob.cd = h.clock.Add(1)
+	ob.k = rd.count()
 	rd.mu.Lock()
 	rd.ctl = append(rd.ctl, ob)
 	rd.mu.Unlock()
@@ -758,6 +802,10 @@ func (rd *reader) exec(st Step) {
 	case "pause":
 		if rd.state == "playing" {
 			rd.doPause()
+		}
+	case "replay":
+		if rd.state == "playing" {
+			rd.doReplay()
 		}
 	case "leave":
 		if rd.state != "gone" {
